@@ -249,6 +249,10 @@ func c06Eval(cs c06Case) *Case {
 }
 
 func runC06(r *Run, replay *Case) {
+	if replay != nil && replay.Input["stream"] == "history" {
+		c06History(r)
+		return
+	}
 	if replay != nil {
 		for _, cs := range c06Cases() {
 			if cs.desc == replay.Input["desc"] {
@@ -276,6 +280,7 @@ func runC06(r *Run, replay *Case) {
 		c.Oracle = verdict
 		r.Add(c)
 	}
+	c06History(r)
 	r.Res.Exhaustive = true
 	_ = strings.TrimSpace
 }
